@@ -704,10 +704,7 @@ func checkC10(ctx *RunCtx) int {
 		if r.Intn(3) == 0 {
 			req, nh = 2, 4
 		}
-		pr := combination.PowerRankings(combination.CombinationPowerStandard)
-		if short {
-			pr = combination.CombinationPowerShortDeck
-		}
+		pr := (&Cfg{Short: short}).Rankings()
 		d := shuffledDeck(r, short)
 		if r.Intn(3) == 0 {
 			// bias: keep two suits / a narrow rank window so that flushes, straights and full houses are common
